@@ -8,7 +8,9 @@ Tie to /repo (correspondence, general stream):
   1e-12 on unit-scale data; the shape logic of vectorised calls, the position bookkeeping of
   the constructors / frommatrix / __getitem__, the vectors the constructors derive through
   transform_system (default frame carried along) and the detector extents of the factories
-  are compared with their model functions as well.
+  are compared with their model functions as well.  Round 4: rotation_matrix_from_to and
+  transform_system are also called directly (streams fromto, tsys) against the model of the
+  functions as coded, with all branches; stream helix checks the pitch period on the real code.
 Oracle (independent of the model, evaluated on the real code): the relations of the
 property themselves.
 """
@@ -43,7 +45,14 @@ ASSUMPTIONS = ['floating-point rounding is outside the model: agreement is requi
                'partition slicing itself (which angles a slice keeps) is C14; here it is only '
                'checked on the real code that slice.angles == angles[slice]',
                'Fan/Cone __getitem__, frommatrix det_point_position/det_to_src, vectorised VALUES (the shape has a '
-               'theorem), factory corner coverage and the helical Tam-Danielsson window are oracle-only']
+               'theorem), factory corner coverage and the helical Tam-Danielsson window are oracle-only',
+               'round 4: rotation_matrix_from_to (stream fromto) and transform_system (stream tsys) are called '
+               'directly and compared with rotFromToCode2/3 and tsMatrix2/3 (zero tests, np.allclose snap, collinear / '
+               'opposite / generic branches) at 4e-12, exactly on axis-aligned power-of-two inputs; near-opposite '
+               'inputs (angle th from opposite, th >= 1e-7) at 4e-12 + 8e-16/th because the code normalises a cross '
+               'product of length th computed in floats; the band edges |u x v| = 1e-10 and |p_perp| = 1e-8 themselves '
+               'are avoided by the generator (model tests squared norms exactly, the code rounded norms); the snap is '
+               'accepted up to 4e-8 rad, beyond that it is finding F19t']
 
 TOL = 1e-12
 PI2 = 2 * np.pi
